@@ -181,3 +181,32 @@ func init() {
 		Old: "\t\t\t\ts.resync(origin, fmt.Sprintf(\"failed to retrieve missing v2 transactions for block %v from peer %v: %v\", bid, origin, err))\n\t\t\t\treturn nil",
 		New: "\t\t\t\treturn fmt.Errorf(\"failed to retrieve missing v2 transactions for block %v from peer %v: %w\", bid, origin, err)"})
 }
+
+func init() {
+	const host, wstore, mgr, srv, evt, psync, db = "testutil/host.go", "testutil/wallet.go", "chain/manager.go", "rhp/v4/server.go", "wallet/events.go", "syncer/parallel_sync.go", "chain/db.go"
+	mutant(Mutant{Rule: "C08.R9", Name: "revisable-at-proof-height", File: host,
+		Old: "Revisable: !renewed && ec.tip.Height < rev.ProofHeight,", New: "Revisable: !renewed && ec.tip.Height <= rev.ProofHeight,"})
+	mutant(Mutant{Rule: "C09.R7", Name: "empty-roots-not-stored", File: host,
+		Old: "\tec.roots[contractID] = append([]types.Hash256(nil), roots...)\n",
+		New: "\tif len(roots) > 0 {\n\t\tec.roots[contractID] = append([]types.Hash256(nil), roots...)\n\t}\n"})
+	mutant(Mutant{Rule: "C09.R8", Name: "lock-helper-defers-unlock", File: srv,
+		Old: "\t} else if !rs.Revisable {\n\t\tunlock()\n\t\treturn RevisionState{}, nil, errorBadRequest(\"contract is not revisable\")\n\t}\n\treturn rs, unlock, nil",
+		New: "\t}\n\tdefer unlock()\n\tif !rs.Revisable {\n\t\treturn RevisionState{}, nil, errorBadRequest(\"contract is not revisable\")\n\t}\n\treturn rs, unlock, nil"})
+	mutant(Mutant{Rule: "C06.R10", Name: "proof-update-not-stored-back", File: wstore,
+		Old: "\t\tpu.UpdateElementProof(&se.StateElement)\n\t\tet.store.utxos[se.ID] = se.Move()\n",
+		New: "\t\tn := len(se.StateElement.MerkleProof)\n\t\tpu.UpdateElementProof(&se.StateElement)\n\t\tif len(se.StateElement.MerkleProof) > n {\n\t\t\tet.store.utxos[se.ID] = se.Move()\n\t\t}\n"})
+	mutant(Mutant{Rule: "C06.R9", Name: "v2-outflow-counts-everyone", File: evt,
+		Old: "\t\t\tif !relevant[se.Parent.SiacoinOutput.Address] {\n\t\t\t\tcontinue\n\t\t\t}\n\t\t\tinflow = inflow.Add(se.Parent.SiacoinOutput.Value)",
+		New: "\t\t\tinflow = inflow.Add(se.Parent.SiacoinOutput.Value)"})
+	mutant(Mutant{Rule: "C13.R14", Name: "reorg-path-steps-before-recording", File: mgr,
+		Old: "\t\trevert = append(revert, a)\n\t\tif !rewind(&a) {\n\t\t\treturn\n\t\t}\n",
+		New: "\t\tif !rewind(&a) {\n\t\t\treturn\n\t\t}\n\t\trevert = append(revert, a)\n"})
+	mutant(Mutant{Rule: "C04.R9", Name: "walker-shortcut-on-best-chain", File: mgr,
+		Old: "func (m *Manager) reorgTo(index types.ChainIndex) error {\n",
+		New: "func (m *Manager) reorgTo(index types.ChainIndex) error {\n\tif best, ok := m.store.BestIndex(index.Height); ok && best == index {\n\t\treturn nil\n\t}\n"})
+	mutant(Mutant{Rule: "C12.R8", Name: "checkpoint-blocks-checked-against-base", File: psync,
+		Old: "blocks[len(blocks)-1].ID() != req.tip.ID", New: "blocks[0].ParentID != req.base.ID"})
+	mutant(Mutant{Rule: "C12.R7", Name: "worker-regime-by-request-tip", File: psync,
+		Old: "\t\tif req.base.Height >= cs.Network.HardforkV2.RequireHeight {\n\t\t\tcs, b, err := p.SendCheckpoint",
+		New: "\t\tif req.tip.Height >= cs.Network.HardforkV2.RequireHeight {\n\t\t\tcs, b, err := p.SendCheckpoint"})
+}
